@@ -1906,3 +1906,12 @@ M("C13", "alternative-answered-from-memo", JQC,
                 continue
             priority_variables.append(variable)
 ''', "R13.8", "a fall-back alternative re-uses the first alternative's variable (seed C13-f shape)")
+
+M("C01", "incoming-sets-from-successors", CNG,
+  "node.eventsets_incoming = event.in_event_sets",
+  "node.eventsets_incoming = event.event_sets", "R1.11",
+  "merge validation would read the successor sets")
+M("C05", "break-on-non-break-loop-nodes", PG,
+  "            if PUMLEvent.BREAK in self.event_types:\n                blocks.append(f\"{' ' * indent}break\")",
+  "            if PUMLEvent.BREAK not in self.event_types:\n                blocks.append(f\"{' ' * indent}break\")",
+  "R5.6", "break emitted after every loop that is not a break point")
